@@ -420,7 +420,8 @@ def _tile(buf, rng, src, orig):
                 hl_k = _total_len(head[:k])
                 if hl_k is not None and _lin_eq(hl_k, srclen):
                     return src + buf[k:]
-            return unk
+            # the write starts at 0 and lands on bytes that were already written, without covering them exactly
+            return [("clobber", strip_sites(orig))]
         rest = _zseg(_lin_sub(m, srclen))
         return unk if rest is None else src + rest
     if rk[0] == "from":
@@ -524,6 +525,8 @@ def show_nf(segs, d=5):
             out.append("Resize(%d,0x%02x)" % (s[1], s[2]))
         elif k == "resize?":
             out.append("Resize(%s,0x%02x)" % (show(s[1], 3), s[2]))
+        elif k == "clobber":
+            out.append("OVERWRITE!%s" % show(s[1], 3))
         elif k == "padg":
             out.append("PadTo(%d,0x%02x)[if shorter]" % (s[1], s[2]))
         elif k == "rev":
@@ -576,9 +579,22 @@ def may_truncate(segs):
     return False
 
 
+def clobbers(segs):
+    """Does the construction write over bytes it had already written (partially overlapping copy)?  The value is then
+    not the concatenation of its parts, whatever the lengths are."""
+    for s in segs:
+        if s[0] == "clobber":
+            return True
+        if s[0] == "rev" and clobbers(list(s[1])):
+            return True
+        if s[0] == "phi" and any(clobbers(list(a)) for a in s[1]):
+            return True
+    return False
+
+
 def is_strong(segs):
     for s in segs:
-        if s[0] in ("?", "phi", "copy", "resize?"):
+        if s[0] in ("?", "phi", "copy", "resize?", "clobber"):
             return False
         if s[0] == "rev" and not is_strong(list(s[1])):
             return False
@@ -589,7 +605,7 @@ def seg_atoms(segs):
     """Atoms (value terms) of a normal form, in order."""
     out = []
     for s in segs:
-        if s[0] in ("v", "v1", "?"):
+        if s[0] in ("v", "v1", "?", "clobber"):
             out.append(s[1])
         elif s[0] == "rev":
             out += seg_atoms(list(s[1]))
